@@ -116,8 +116,11 @@ def binding_b(v, exe, seed, ncases):
 
     def validate(k):
         try:
-            results[k] = vlib.tlc("GridTrace", os.path.join(vlib.SPEC, "GridTrace.cfg"), workers=1, timeout=900,
-                                  env={"TRACE": paths[k]}, coverage=False)
+            # a private copy of the configuration: vlib.tlc derives its scratch directory from the cfg name
+            cfgk = os.path.join(vlib.BUILD, "C17_GridTrace_%s.cfg" % k)
+            with open(os.path.join(vlib.SPEC, "GridTrace.cfg")) as fi, open(cfgk, "w") as fo:
+                fo.write(fi.read())
+            results[k] = vlib.tlc("GridTrace", cfgk, workers=1, timeout=900, env={"TRACE": paths[k]}, coverage=False)
         except Exception as ex:   # reported below
             results[k] = ex
     ths = [threading.Thread(target=validate, args=(k,)) for k in paths]
